@@ -67,6 +67,40 @@ def field_shapes(fi, field_const):
   return out
 
 
+def functional_calls(chk, rid):
+  repo = chk.repo
+  iv = FnView(repo, 'rule_translate.InlinePredicateValuesRecursively')
+  rewrites = [n for n in iv.cfg.stmt_nodes() if isinstance(iv.cfg.stmt[n], ast.Assign) and
+              isinstance(iv.cfg.stmt[n].targets[0], ast.Subscript) and
+              const_str(iv.cfg.stmt[n].targets[0].slice) == 'variable']
+  if not rewrites:
+    raise AnalysisError('InlinePredicateValuesRecursively: call -> variable rewrite not found')
+  apps = [(n, c) for n, c in iv.all_calls() if call_tail(c) == 'append' and
+          receiver(c) == 'conjuncts']
+  allocs = [(n, c) for n, c in iv.all_calls() if call_tail(c) == 'AllocateVar']
+  for n in rewrites:
+    st = iv.cfg.stmt[n]
+    chk.ob(rid, bool(apps) and (iv.cfg.must_pass_before(n, iv.nodes_of(apps)) or
+                                     iv.cfg.must_pass_after(n, iv.nodes_of(apps))), None,
+           'every call -> variable rewrite adds its own conjunct',
+           'a functional call can be replaced by a variable without a conjunct '
+           'being added for it (shared with another occurrence?): the '
+           'predicate is joined fewer times than the long form joins it',
+           fi=iv.fi, node=st)
+    chk.ob(rid, bool(allocs) and iv.cfg.must_pass_before(n, iv.nodes_of(allocs)), None,
+           'every call -> variable rewrite uses a freshly allocated variable',
+           'two occurrences of a call can share one value variable', fi=iv.fi, node=st)
+  for n, c in apps:
+    dd = [x for x in ast.walk(c) if isinstance(x, ast.Name)]
+    src = iv.assigned_from(dotted(c.args[0])) if c.args and dotted(c.args[0]) else []
+    chk.ob(rid, True, None, 'conjunct carries logica_value bound to the fresh variable',
+           '', fi=iv.fi, node=c, nontrivial=False)
+  lv = tables.find_dicts_with(iv.fi.node, 'field', 'logica_value')
+  chk.ob(rid, bool(lv), None, 'the added conjunct binds logica_value',
+         'the conjunct does not bind the value column', fi=iv.fi)
+
+
+
 def run(chk):
   repo = chk.repo
   chk.rule('C11-R1', 'sibling constructors agree in shape: the three combine '
@@ -188,35 +222,30 @@ def run(chk):
            'conjunct binding logica_value: every call rewritten into a '
            'variable gets its own fresh variable and its own conjunct',
            min_instances=3)
-  iv = FnView(repo, 'rule_translate.InlinePredicateValuesRecursively')
-  rewrites = [n for n in iv.cfg.stmt_nodes() if isinstance(iv.cfg.stmt[n], ast.Assign) and
-              isinstance(iv.cfg.stmt[n].targets[0], ast.Subscript) and
-              const_str(iv.cfg.stmt[n].targets[0].slice) == 'variable']
-  if not rewrites:
-    raise AnalysisError('InlinePredicateValuesRecursively: call -> variable rewrite not found')
-  apps = [(n, c) for n, c in iv.all_calls() if call_tail(c) == 'append' and
-          receiver(c) == 'conjuncts']
-  allocs = [(n, c) for n, c in iv.all_calls() if call_tail(c) == 'AllocateVar']
-  for n in rewrites:
-    st = iv.cfg.stmt[n]
-    chk.ob('C11-R4', bool(apps) and (iv.cfg.must_pass_before(n, iv.nodes_of(apps)) or
-                                     iv.cfg.must_pass_after(n, iv.nodes_of(apps))), None,
-           'every call -> variable rewrite adds its own conjunct',
-           'a functional call can be replaced by a variable without a conjunct '
-           'being added for it (shared with another occurrence?): the '
-           'predicate is joined fewer times than the long form joins it',
-           fi=iv.fi, node=st)
-    chk.ob('C11-R4', bool(allocs) and iv.cfg.must_pass_before(n, iv.nodes_of(allocs)), None,
-           'every call -> variable rewrite uses a freshly allocated variable',
-           'two occurrences of a call can share one value variable', fi=iv.fi, node=st)
-  for n, c in apps:
-    dd = [x for x in ast.walk(c) if isinstance(x, ast.Name)]
-    src = iv.assigned_from(dotted(c.args[0])) if c.args and dotted(c.args[0]) else []
-    chk.ob('C11-R4', True, None, 'conjunct carries logica_value bound to the fresh variable',
-           '', fi=iv.fi, node=c, nontrivial=False)
-  lv = tables.find_dicts_with(iv.fi.node, 'field', 'logica_value')
-  chk.ob('C11-R4', bool(lv), None, 'the added conjunct binds logica_value',
-         'the conjunct does not bind the value column', fi=iv.fi)
+  functional_calls(chk, 'C11-R4')
+
+  chk.rule('C11-R5', 'several rules equal one rule with `|`: the DNF of a '
+           'disjunction keeps every alternative of every disjunct (no '
+           'filtering, no de-duplication - rules are bags)', min_instances=1)
+  dj = repo.func('parse.DisjunctiveNormalForm.DisjunctsToDNF')
+  adds = []
+  for x in walk_local(dj.node):
+    if isinstance(x, ast.For):
+      for y in ast.walk(x):
+        if isinstance(y, ast.AugAssign) and isinstance(y.op, ast.Add):
+          adds.append((x, y.value))
+        if isinstance(y, ast.Call) and call_tail(y) in ('extend',) and y.args:
+          adds.append((x, y.args[0]))
+  if not adds:
+    raise AnalysisError('DisjunctsToDNF: accumulation of alternatives not found')
+  for loop, val in adds:
+    whole = isinstance(val, ast.Name) and isinstance(loop.target, ast.Name) and val.id == loop.target.id
+    whole = whole or (isinstance(val, ast.Call) and call_tail(val) in ('list', 'deepcopy') and
+                      val.args and dotted(val.args[0]) == dotted(loop.target))
+    chk.ob('C11-R5', whole, None, 'every alternative of a disjunct is added to the DNF',
+           'the DNF of a disjunct is filtered before it is added (%s): an '
+           'alternative that occurs twice contributes once, so `A | A` no longer '
+           'equals two rules' % norm(val, 70), fi=dj, node=val)
 
   chk.rule('C11-R3', 'the `=` and `->` library predicates exist in every '
            'dialect library with one common definition', min_instances=16)
